@@ -2,9 +2,11 @@
 //
 // Scenarios come from spec/filetree/FileTreeGen.tla.  Two kinds:
 //
-//	par.kind = "file"    real constants: content of par.sq*262144+par.sr seeded bytes is uploaded through
+//	par.kind = "file"    real constants: content of par.s[0]*262144+par.s[1] seeded bytes is uploaded through
 //	                     builder.NewPipelineBuilder (plain or encrypted) with the prescribed write splits into a
-//	                     recording in-memory store, then opened with joiner.New and read as prescribed.
+//	                     recording in-memory store; `open` opens the most recent upload with joiner.New and the
+//	                     prescribed Read / ReadAt / Seek calls follow.  64-bit quantities are logged as pairs
+//	                     [q, r] = q*262144 + r (TLC integers are 32 bit).
 //	par.kind = "scaled"  the writer side assembled by hand from the exported constructors with branching 2..5
 //	                     and 128-byte chunks (feeder -> bmt -> store -> hashtrie), to reach 3..8 levels.
 //
@@ -49,13 +51,6 @@ func timing(f string, a ...interface{}) {
 }
 
 func pair(m map[string]interface{}, k string) int64 { return filex.Join(kit.IntList(m, k)) }
-
-func errs(e error) string {
-	if e == nil {
-		return ""
-	}
-	return e.Error()
-}
 
 // ---------------------------------------------------------------------------------------------------------
 // writing with a prescribed split
